@@ -17,6 +17,9 @@
      5  a weakly referenced owner / observing object was still alive after del + gc.collect()
      6  a change raised
      7  (case level, code 7) the pool objects were kept alive by the registrations
+     9  the removal of a LIVE registration (same object, handler, dispatcher and expression registered more often than
+        removed; silent once something of that handler has been removed beyond what was registered, DESIGN 6a) raised:
+        registrations are reversible one by one
      8  every registration of ONE handler has been matched by a removal (whatever other handlers still have
         registered), the handler was not present initially, but a notifier of it is still on some list *)
 From Coq Require Import List Arith Bool PeanoNat.
@@ -173,7 +176,9 @@ Section Law.
                    || match i_out ob with
                       | None => false
                       | Some e => negb (forallb (fun g => l_struct_ok h g x) gs) || exn_eqb e NotifierNotFound
-                      end),
+                      end)
+         ++ chk 9 (negb (Nat.ltb (cnt_sig s (unregs L)) (cnt_sig s (regs L)) && negb (key_overdrawn L k))
+                   || is_none (i_out ob)),
          L', dh, dobj)
     | Change o f =>
         let ks := dedup_keys (keys_of L) in
